@@ -12,15 +12,16 @@ import (
 	"strconv"
 	"strings"
 	"sync"
+	"time"
 
 	"github.com/nspcc-dev/neofs-node/verif/lib/ev"
 )
 
 // Scenario is one closed harness explored exhaustively within its bounds.
 type Scenario struct {
-	Name  string
-	Opt   Options
-	Body  func(s *S) any
+	Name string
+	Opt  Options
+	Body func(s *S) any
 	// Check is the oracle for one complete execution; fp=="" means the property held.
 	Check func(x *Exec) (fp, what string)
 	// Outcome classifies the execution for vacuity accounting (distinct observed outcomes).
@@ -224,12 +225,16 @@ func judge(sc *Scenario, x *Exec) (string, string) {
 
 func child(r *ev.Run, scenarios []Scenario, shard, shards int) {
 	w := bufio.NewWriter(os.Stdout)
+	start := time.Now()
 	for i := range scenarios {
 		sc := &scenarios[i]
+		// the wall-clock budget is shared: scenario i must stop at the (i+1)/n mark, time left over
+		// by an earlier scenario rolls over to the later ones (no scenario is starved by an earlier one)
+		deadline := start.Add(r.Budget * time.Duration(i+1) / time.Duration(len(scenarios)))
 		sr := shardResult{Scenario: sc.Name, Outcomes: map[string]int{}, Counters: map[string]int{}}
 		opt := sc.Opt
 		opt.Shard, opt.Shards = shard, shards
-		opt.Expired = r.Expired
+		opt.Expired = func() bool { return time.Now().After(deadline) }
 		sr.Stats = Explore(opt, sc.Body, func(x *Exec) {
 			if fp, what := judge(sc, x); fp != "" {
 				if len(sr.Viol) < 50 {
